@@ -337,7 +337,7 @@ let run_prefetchgrp (parts : string list) : string =
   let others = match fld f "oth" with
     | "-" | "" -> []
     | s -> List.map (fun o -> match String.index_opt o ':' with
-        | Some i -> (String.sub o 0 i = "fresh", c19_clients (String.sub o (i + 1) (String.length o - i - 1)))
+        | Some i -> (String.sub o 0 i, c19_clients (String.sub o (i + 1) (String.length o - i - 1)))
         | None -> failwith "bad oth") (String.split_on_char ',' s) in
   let q = n_of_int 1 in
   let evs = ref [] and nh = ref 0 and now = ref 0 and worst = ref 0 in
@@ -366,10 +366,12 @@ let run_prefetchgrp (parts : string list) : string =
 
   (* ---- setup: G's entry was stored 100 s before the burst; fresh groups ask 5 s before it *)
   add [PgStore (q, List.hd hit, n_of_int 7, zt (life * sec), false)];
+  List.iter (fun (st, cs) ->
+    if st = "window" then add [PgStore (q, List.hd cs, n_of_int 9, zt (life * sec), false)]) others;
   tick (95 * sec);
   let n_fresh = ref 0 and setup_up = ref 0 in
-  List.iter (fun (fresh, cs) ->
-    if fresh then begin
+  List.iter (fun (st, cs) ->
+    if st = "fresh" then begin
       incr n_fresh;
       let c0 = List.hd cs in
       let i = one c0 in
@@ -381,12 +383,13 @@ let run_prefetchgrp (parts : string list) : string =
   let out = Printf.sprintf "timing=ok setup=%d/%d setup_up=%d" !n_fresh !n_fresh !setup_up in
 
   (* ---- the burst *)
-  let fresh_clients = List.concat (List.map (fun (fresh, cs) -> if fresh then cs else []) others) in
+  let fresh_clients = List.concat (List.map (fun (st, cs) -> if st = "fresh" || st = "window" then cs else []) others) in
   let idx = burst (hit @ fresh_clients) in
   let rec take k l = if k <= 0 then [] else match l with [] -> [] | x :: t -> x :: take (k - 1) t in
   let rec drop k l = if k <= 0 then l else match l with [] -> [] | _ :: t -> drop (k - 1) t in
   let hit_idx = take (len hit) idx and fresh_idx = drop (len hit) idx in
-  add [PgSend (nat_of_int 0)];
+  let n_ref = len (List.filter (fun i -> att (run ()) i = Some true) idx) in
+  add (List.init n_ref (fun j -> PgSend (nat_of_int j)));
   let s1 = run () in
   let n_a = len (List.filter (fun i -> mark (answer s1 i) = "A" && ttl_class (answer s1 i) !now = "a") hit_idx) in
   let n_c = len (List.filter (fun i -> mark (answer s1 i) = "C") fresh_idx) in
@@ -397,11 +400,13 @@ let run_prefetchgrp (parts : string list) : string =
   let spawner = List.filter (fun (i, _) -> att s1 i = Some true) (List.combine idx (hit @ fresh_clients)) in
   let ecs = match spawner with
     | [] -> "noquery"
-    | (_, c) :: _ -> (match pg_refresh_client false c PgRcZeroed with
+    | l -> String.concat "+" (List.sort compare (List.map (fun (_, c) ->
+        match pg_refresh_client false c PgRcZeroed with
         | Some _ when ecs_on -> "own"
-        | _ -> "none") in
+        | _ -> "none") l)) in
   (match mode with
-   | "slow" | "fast" -> tick (delay_ms * ms); add [PgUp (nat_of_int 0, RfOk (n_of_int 8, zt (life * sec), false))]
+   | "slow" | "fast" -> tick (delay_ms * ms);
+     add (List.init n_ref (fun j -> PgUp (nat_of_int j, RfOk (n_of_int 8, zt (life * sec), false))))
    | "neg" -> tick (delay_ms * ms); add [PgUp (nat_of_int 0, RfOk (n_of_int 12, zt (30 * sec), true))]
    | "fail" -> add [PgUp (nat_of_int 0, RfFail)]
    | _ -> failwith "bad mode");
